@@ -248,6 +248,20 @@ def run(tier):
                 '(sharpness)', r4, 'must violate: %s' % r4.violated)
     if not r4.violated:
         raise Machinery('NcSession invariant is not sharp')
+    if tier != 'quick':
+        # histories of ANY length: Apalache discharges the inductive invariant
+        # of NcSession (base case, step, invariant => HistoryFree)
+        import subprocess
+        pr = subprocess.run([os.path.join(os.path.dirname(os.path.dirname(
+            os.path.abspath(__file__))), 'tools', 'apalache_ncsession.sh')],
+            stdout=subprocess.PIPE, stderr=subprocess.STDOUT, timeout=2400)
+        txt = pr.stdout.decode('utf-8', 'replace')
+        out.cov['apalache_ncsession'] = txt.strip().split('\n')[-3:]
+        if pr.returncode == 1:
+            out.violation('Apalache: the inductive invariant of NcSession '
+                          'fails', {'kind': 'model', 'tail': txt[-2000:]})
+        elif pr.returncode != 0:
+            raise Machinery('apalache_ncsession.sh failed:\n' + txt[-1500:])
     hists = unique([p['hist'] for p in r3.prints
                     if isinstance(p, dict) and 'hist' in p])
     if len(hists) != 64:
